@@ -306,8 +306,16 @@ def worker_loop(ctx, A, W, RULE, drain_liveness=False):
             t = DW.term(db)
             ve = variant_edges(DW, t["target"]) if t.get("target") is not None else None
             some = [tgt for n, tgt in ve[1] if n == "Some"] if ve else []
-            ctx.check(bool(some) and all(DW.must_pass([s], [db]) for s in some), RULE, "%s|drain-exits-only-on-disconnect" % W.name,
-                      "the drain loop leaves only when the channel reports disconnection: every later command is received and answered", DW.where(db))
+            # the iterator stepped is the channel's own (it ends only on disconnection): an adaptor that can end it earlier
+            # (`.take(receiver.len())`, take_while, ..) leaves commands queued during the drain unanswered
+            ity = ((t.get("gargs") or [""])[0]).replace("&mut ", "")
+            raw_iter = ity.startswith(("crossbeam_channel::Iter<", "crossbeam_channel::IntoIter<", "crossbeam_channel::TryIter<")) and not ity.startswith("crossbeam_channel::TryIter<")
+            ctx.check(bool(some) and all(DW.must_pass([s], [db]) for s in some) and raw_iter, RULE, "%s|drain-exits-only-on-disconnect" % W.name,
+                      "the drain loop leaves only when the channel reports disconnection: every later command is received and answered", DW.where(db), "iterator: %s" % ity[:80])
+        for DW, db in foreach_sites:
+            ity = ((DW.term(db).get("gargs") or [""])[0]).replace("&mut ", "")
+            ctx.check(ity.startswith(("crossbeam_channel::Iter<", "crossbeam_channel::IntoIter<")), RULE, "%s|drain-exits-only-on-disconnect" % W.name,
+                      "the drain loop leaves only when the channel reports disconnection: every later command is received and answered", DW.where(db), "iterator: %s" % ity[:80])
         ctx.check(len(drain_sites) >= 1, RULE, "%s|drain-exists" % W.name, "the Shutdown arm drains the queue", W.where())
     allv = set()
     for name, adt in F.adts.items():
